@@ -278,7 +278,7 @@ Section Coll.
     '(e, h1) <- apply_updates h ;;
     match e with Some e => Ret (Some e, h1) | None =>
     coll_tree_hash_root h1 ;;;
-    r <- try_ (intra_rebase ek (htree h1) [] (hdepth h1)) ;;
+    r <- try_ (intra_rebase ek H (htree h1) [] (hdepth h1)) ;;
     match r with
     | inl e => Ret (Some e, h1)
     | inr (IReplace t, _) => Ret (None, with_tree h1 t)
